@@ -115,6 +115,21 @@ def format (buf : Bytes) (v : Ver) (tag : Bool) : Bytes :=
     ++ (if v.pre.isEmpty then [] else 45 :: v.pre)
     ++ (if v.build.isEmpty then [] else 43 :: v.build)
 
+/-- `f & FormatTag != 0` -/
+def isTag (f : Nat) : Bool := f &&& Gen.sem_FormatTag != 0
+
+/-- `formatByVerb`: the switch table extracted from the source -/
+def flagsByVerb (verb : Nat) : Nat :=
+  match Gen.sem_verbs.find? (fun e => e.1 == verb) with
+  | some e => e.2.getD 0
+  | none => Gen.sem_verbDefault.getD 0
+
+/-- `MarshalText`, `String` (both `Formatter(nil, v, 0)`), `StringTag` and `Format(f, verb)` -/
+def marshalText (v : Ver) : Bytes := format [] v (isTag 0)
+def toString (v : Ver) : Bytes := format [] v (isTag 0)
+def stringTag (v : Ver) : Bytes := format [] v (isTag Gen.sem_FormatTag)
+def formatVerb (v : Ver) (verb : Nat) : Bytes := format [] v (isTag (flagsByVerb verb))
+
 /-- `Ver.Valid()` -/
 def Ver.valid (v : Ver) : Outcome Unit :=
   if !v.pre.isEmpty && !validPre v.pre then .err .invalidPreRelease
